@@ -349,9 +349,10 @@ fn check_count_eq(rng: &mut Rng, iters: usize) -> Option<Found> {
         let (ga, gb) = (gcounter_of(a), gcounter_of(b));
         if (ga == gb) != want { return Some(Found { input: format!("GCounter {}", inp), observed: format!("A == B is {}", ga == gb), required: format!("{}: counters are equal exactly when every replica has the same count, a zero slot counting like an absent one", want) }); }
         // PNCounter: a on the positive side and b on the negative one, against the swap and against itself respelled
-        let (pa, pb, pc) = (pn_of(a, b), pn_of(b, a), pn_of(&respell(rng, a), &respell(rng, b)));
+        let (ra, rb) = (respell(rng, a), respell(rng, b));
+        let (pa, pb, pc) = (pn_of(a, b), pn_of(b, a), pn_of(&ra, &rb));
         if (pa == pb) != want { return Some(Found { input: format!("PNCounter X = (+A, -B), Y = (+B, -A); {}", inp), observed: format!("X == Y is {}", pa == pb), required: format!("{}: equal exactly when both halves agree slot by slot (zero = absent)", want) }); }
-        if !(pa == pc) || !(pc == pa) { return Some(Found { input: format!("PNCounter X = (+A, -B) and the same counts with zero slots added / dropped; {}", inp), observed: "X == X' is false".into(), required: "true: a zero slot counts like an absent one".into() }); }
+        if !(pa == pc) || !(pc == pa) { return Some(Found { input: format!("PNCounter X = (+A, -B), X' = (+{:?}, -{:?}): the same counts with zero slots added / dropped; {}", ra, rb, inp), observed: "X == X' is false".into(), required: "true: a zero slot counts like an absent one".into() }); }
         if wire_ok || (a.values().all(|n| *n > 0) && b.values().all(|n| *n > 0)) {
             if let (Some(va), Some(vb)) = (vc_of(a), vc_of(b)) {
                 if (va == vb) != want { return Some(Found { input: format!("VectorClock {}", inp), observed: format!("A == B is {}", va == vb), required: format!("{}: clocks are equal exactly when every replica has the same count (absent = 0)", want) }); }
